@@ -370,3 +370,19 @@ Definition run_value (v : str) : obs :=
 Definition run_selfloc (location name : str) : obs :=
   oopt ostr (stack_get simple_join simple_basename
                (mk_store None [(location, [(name, lit "x")])]) location None name).
+
+(* ---- StartingPathMatcher (used by no stack in breezy; kept for completeness) -------- *)
+(* get_sections: the store's sections in REVERSED file order; a named section is
+   kept when location.startswith(id) or fnmatch(location, id) -- on the whole
+   strings, not per segment; extra_path = the location parts beyond the number
+   of parts of the id; the no-name section is always kept, extra_path = location *)
+Definition spm_sections (st : store) (location : str) : list (str * str) :=
+  flat_map (fun so : str * options =>
+              if prefixb (fst so) location || fnmatch location (fst so)
+              then [(fst so, join [cSL] (skipn (length (parts (fst so))) (parts location)))]
+              else [])
+           (rev (st_named st))
+  ++ match st_noname st with Some _ => [([], location)] | None => [] end.
+
+Definition run_spm (nn : option options) (named : list (str * options)) (location : str) : obs :=
+  olist (fun p => OL [ostr (fst p); ostr (snd p)]) (spm_sections (mk_store nn named) location).
